@@ -332,6 +332,43 @@ def mutate_program(rng, prog):
     return {"files": files, "root": prog["root"], "models": prog["models"], "mutated": True}
 
 
+def shrink_failure(ctx, model, rounds=8):
+    """delta-debug a failing well-formed model: drop declarations (re-rendered in a few styles) while the
+    real parser still gets it wrong; returns the smallest failing text found, or None"""
+    import random
+    best = None
+    cur = model
+    for _ in range(rounds):
+        cands = []
+        decls = cur["decls"]
+        variants = [dict(cur, decls=decls[:i] + decls[i + 1:]) for i in range(len(decls))] if len(decls) > 1 else []
+        variants.append(cur)
+        for vi, m in enumerate(variants):
+            for seed in range(3):
+                rd = G.Renderer(random.Random(ctx.seed * 31 + seed), plain=(seed == 0))
+                try:
+                    text = rd.render(m)
+                except Exception:  # noqa
+                    continue
+                cands.append((m, text))
+        resps = run_harness([{"op": "parse", "text": t.hex()} for _, t in cands])
+        failing = []
+        for (m, t), r in zip(cands, resps):
+            if oracle_parse({"kind": "valid", "canon": G.canon(m)}, r):
+                failing.append((len(m["decls"]), len(t), m, t))
+        if not failing:
+            break
+        failing.sort(key=lambda x: (x[0], x[1]))
+        n, _, m, t = failing[0]
+        if best is not None and len(t) >= len(best) and n >= len(cur["decls"]):
+            break
+        best = t
+        if n >= len(cur["decls"]):
+            break
+        cur = m
+    return best
+
+
 # ---- main ------------------------------------------------------------------------------------------
 
 def run(ctx, br):
@@ -347,7 +384,8 @@ def run(ctx, br):
         m = gen.model()
         rd = G.Renderer(rng, plain=(i % 10 == 0))
         text = rd.render(m)
-        cases.append({"kind": "valid", "text": text, "canon": G.canon(m), "features": rd.features, "hazard": None})
+        cases.append({"kind": "valid", "text": text, "canon": G.canon(m), "features": rd.features, "hazard": None,
+                      "model": m})
     for hz in G.HAZARDS:
         for i in range(n_hazard_each):
             gen = G.Gen(rng)
@@ -376,9 +414,14 @@ def run(ctx, br):
             why_of[i] = why
             oracle_fail += 1
             sig = {"hazard": c["hazard"]} if c["hazard"] else None
-            ctx.violation("C10 oracle: " + why, {"idl_text": c["text"].decode("utf8", "backslashreplace"),
-                                                 "hazard": c["hazard"], "observed": {k: r.get(k) for k in ("code", "msg")}},
-                          signature=sig)
+            rep = {"idl_text": c["text"].decode("utf8", "backslashreplace"),
+                   "hazard": c["hazard"], "observed": {k: r.get(k) for k in ("code", "msg")}}
+            if c["kind"] == "valid" and oracle_fail <= 3 and c.get("model") is not None:
+                small = shrink_failure(ctx, c["model"])
+                if small is not None:
+                    rep["idl_text_full"] = rep["idl_text"]
+                    rep["idl_text"] = small.decode("utf8", "backslashreplace")
+            ctx.violation("C10 oracle: " + why, rep, signature=sig)
 
     # programs: several files, include resolution, validation, scope sorting
     progs = [gen_program(ctx, rng, i) for i in range(n_prog)]
